@@ -178,7 +178,7 @@ impl Cfg {
 
 // ------------------------------------------------------------------ reference model
 
-#[derive(Clone, Debug)]
+#[derive(Clone, Debug, PartialEq)]
 enum St {
     Key { c: usize, kc: u16, clear: bool },
     Layer { c: usize, idx: usize },
@@ -195,10 +195,27 @@ pub struct MStats {
     pub dup_keycode_held: u64,
     pub layer_switches: u64,
     pub presses: u64,
+    pub presses_over_cap: u64,
     pub nested_trans: u64,
     pub first_layer_delegations: u64,
 }
 
+/// what the statement's search over ALL held layers gives for a press, when that differs from the
+/// search over the 10 most recent held layers that kanata's 12-entry stack has room for
+#[derive(Clone)]
+pub struct Alt<'a> {
+    model: Box<Model<'a>>,
+    out: TickOut,
+}
+
+/// kanata searches at most this many (most recent) held layers, then the base layer (+ first layer)
+pub const HELD_CAP: usize = 10;
+/// beyond this many held layers (or model work per tick) a history leaves the judged scope: nested `_`
+/// inside multi on a layer held n times multiplies the work by 2^n, and kanata's 64-entry state list fills
+pub const HELD_GUARD: usize = 16;
+const OPS_GUARD: u64 = 2_000_000;
+
+#[derive(Clone)]
 pub struct Model<'a> {
     cfg: &'a Cfg,
     phys: Vec<u16>,
@@ -208,6 +225,9 @@ pub struct Model<'a> {
     diff: OsDiff,
     press_order: Vec<Option<Vec<usize>>>,
     deleg_appended: bool,
+    ops: u64,
+    pub blown: bool,
+    pub alt: Option<Alt<'a>>,
     pub stats: MStats,
 }
 
@@ -215,7 +235,7 @@ impl<'a> Model<'a> {
     pub fn new(cfg: &'a Cfg) -> Self {
         let phys: Vec<u16> = cfg.phys().iter().map(|k| kc(k)).collect();
         let n = phys.len();
-        Model { cfg, phys, q: VecDeque::new(), st: vec![], default_layer: 0, diff: OsDiff::default(), press_order: vec![None; n], deleg_appended: false, stats: MStats::default() }
+        Model { cfg, phys, q: VecDeque::new(), st: vec![], default_layer: 0, diff: OsDiff::default(), press_order: vec![None; n], deleg_appended: false, ops: 0, blown: false, alt: None, stats: MStats::default() }
     }
     pub fn push(&mut self, press: bool, c: usize) {
         self.q.push_back((press, c));
@@ -249,9 +269,16 @@ impl<'a> Model<'a> {
     }
     /// layers searched by a press, in order (the defsrc key comes after them)
     fn order(&self) -> Vec<usize> {
+        self.order_with(Some(HELD_CAP))
+    }
+    /// `cap` = how many of the most recent held layers are searched (None: all, as the statement says)
+    fn order_with(&self, cap: Option<usize>) -> Vec<usize> {
         let cur = self.current_layer();
         if self.cfg.v2 {
             let mut v = self.held_layers();
+            if let Some(c) = cap {
+                v.truncate(c);
+            }
             v.push(self.default_layer);
             if self.cfg.delegate && cur != 0 && self.default_layer != 0 {
                 v.push(0);
@@ -287,7 +314,11 @@ impl<'a> Model<'a> {
         Ac::Key(self.cfg.phys()[c])
     }
     fn act(&mut self, a: &Ac, c: usize, order: &mut std::slice::Iter<usize>, depth: usize) {
-        if depth > 40 {
+        self.ops += 1;
+        if self.ops > OPS_GUARD {
+            self.blown = true;
+        }
+        if depth > 40 || self.blown {
             return;
         }
         let a = if *a == Ac::Trans {
@@ -352,12 +383,28 @@ impl<'a> Model<'a> {
         }
     }
     pub fn tick(&mut self) -> TickOut {
+        self.ops = 0;
+        self.alt = None;
+        let mut alt: Option<Box<Model<'a>>> = None;
         if let Some((press, c)) = self.q.pop_front() {
             if press {
                 self.stats.presses += 1;
                 let order = self.order();
+                let full = self.order_with(None);
                 let cur = self.current_layer();
                 self.deleg_appended = self.cfg.delegate && cur != 0 && (!self.cfg.v2 || self.default_layer != 0);
+                if full != order {
+                    // more than 10 layers held: also run the statement's search over all of them
+                    self.stats.presses_over_cap += 1;
+                    let mut a = Box::new(self.clone());
+                    a.press_order[c] = Some(full.clone());
+                    let mut it = full.iter();
+                    a.act(&Ac::Trans, c, &mut it, 0);
+                    if a.blown {
+                        self.blown = true;
+                    }
+                    alt = Some(a);
+                }
                 self.press_order[c] = Some(order.clone());
                 let mut it = order.iter();
                 self.act(&Ac::Trans, c, &mut it, 0);
@@ -372,8 +419,26 @@ impl<'a> Model<'a> {
                 });
             }
         }
+        if let Some(mut a) = alt {
+            if a.st != self.st || a.default_layer != self.default_layer {
+                let cur: Vec<u16> = a.st.iter().filter_map(|s| if let St::Key { kc, .. } = s { Some(*kc) } else { None }).collect();
+                let out = a.diff.step(&cur);
+                a.stats = self.stats.clone();
+                self.alt = Some(Alt { model: a, out });
+            }
+        }
         let cur: Vec<u16> = self.st.iter().filter_map(|s| if let St::Key { kc, .. } = s { Some(*kc) } else { None }).collect();
         self.diff.step(&cur)
+    }
+    pub fn state_len(&self) -> usize {
+        self.st.len()
+    }
+    /// kanata followed the search over all held layers: continue from that state
+    fn adopt(&mut self, alt: Alt<'a>) {
+        let q = std::mem::take(&mut self.q);
+        *self = *alt.model;
+        self.q = q;
+        self.alt = None;
     }
 }
 
@@ -386,14 +451,13 @@ pub struct Mismatch {
     pub model: TickOut,
     /// an output appeared while an input event was handled (never expected on this fragment)
     pub at_event: bool,
-    /// 12 or more layers were held when this tick's press was resolved (kanata's resolution stack
-    /// holds 12 entries)
+    /// more than 10 layers were held and the statement's search over all of them finds the action
+    /// on a held layer older than the 10 most recent, which kanata does not search; `model` is then
+    /// what the statement's search gives
     pub over_layers: bool,
     /// not a disagreement: the history was stopped because it left the judged scope
     pub out_of_scope: bool,
 }
-
-pub const LAYER_STACK_CAP: usize = 12;
 
 struct Lock<'a> {
     sim: Sim,
@@ -405,7 +469,6 @@ struct Lock<'a> {
     ktrace: Vec<(u64, TickOut)>,
     mtrace: Vec<(u64, TickOut)>,
     record: bool,
-    over: bool,
     pub over_histories: u64,
 }
 
@@ -414,19 +477,29 @@ impl<'a> Lock<'a> {
         let sim = Sim::new(text)?;
         let model = Model::new(cfg);
         let codes = model.phys.clone();
-        Ok(Lock { sim, model, codes, max_pending: 0, ticks: 0, outputs: 0, ktrace: vec![], mtrace: vec![], record: false, over: false, over_histories: 0 })
+        Ok(Lock { sim, model, codes, max_pending: 0, ticks: 0, outputs: 0, ktrace: vec![], mtrace: vec![], record: false, over_histories: 0 })
     }
     fn tick(&mut self) -> Option<Mismatch> {
         self.sim.tick();
         let k = kanata_outs(self.sim.last());
-        let was_over = self.over;
-        let presses_before = self.model.stats.presses;
-        let m = self.model.tick();
-        if self.model.held_count() >= LAYER_STACK_CAP {
-            self.over = true;
-        }
+        let mut m = self.model.tick();
         self.ticks += 1;
         self.outputs += k.len() as u64;
+        let mut deviation = false;
+        let guard = self.model.blown || self.model.held_count() > HELD_GUARD || self.model.state_len() > 56;
+        if !guard {
+            if let Some(alt) = self.model.alt.take() {
+                if k == m {
+                    // kanata stopped after the 10 most recent held layers
+                    deviation = true;
+                    m = alt.out;
+                } else if k == alt.out {
+                    // kanata searched all held layers, as the statement says
+                    m = alt.out.clone();
+                    self.model.adopt(alt);
+                }
+            }
+        }
         if self.record {
             if !k.is_empty() {
                 self.ktrace.push((self.sim.now, k.clone()));
@@ -435,20 +508,22 @@ impl<'a> Lock<'a> {
                 self.mtrace.push((self.sim.now, m.clone()));
             }
         }
-        if k != m {
-            return Some(Mismatch { tick: self.sim.now, kanata: k, model: m, at_event: false, over_layers: was_over, out_of_scope: false });
-        }
-        if (was_over && self.model.stats.presses > presses_before) || self.model.held_count() > LAYER_STACK_CAP + 4 {
-            // one press was resolved (and compared) with 12 or more layers held; beyond that the
-            // history is outside the judged scope
+        if guard {
+            // the history leaves the judged scope (2^n work / kanata's 64-entry state list)
             self.over_histories += 1;
-            return Some(Mismatch { tick: self.sim.now, kanata: k, model: m, at_event: false, over_layers: true, out_of_scope: true });
+            return Some(Mismatch { tick: self.sim.now, kanata: k, model: m, at_event: false, over_layers: false, out_of_scope: true });
+        }
+        if deviation {
+            return Some(Mismatch { tick: self.sim.now, kanata: k, model: m, at_event: false, over_layers: true, out_of_scope: false });
+        }
+        if k != m {
+            return Some(Mismatch { tick: self.sim.now, kanata: k, model: m, at_event: false, over_layers: false, out_of_scope: false });
         }
         None
     }
     /// run one history plus a drain; None = agreed on every tick
     fn run(&mut self, h: &[Ev]) -> Option<Mismatch> {
-        self.over = false;
+        self.model.blown = false;
         for e in h {
             match e {
                 Ev::T(n) => {
@@ -469,7 +544,7 @@ impl<'a> Lock<'a> {
                     self.model.push(press, c);
                     self.max_pending = self.max_pending.max(self.model.pending());
                     if !self.sim.last().is_empty() {
-                        return Some(Mismatch { tick: self.sim.now, kanata: kanata_outs(self.sim.last()), model: vec![], at_event: true, over_layers: self.over, out_of_scope: false });
+                        return Some(Mismatch { tick: self.sim.now, kanata: kanata_outs(self.sim.last()), model: vec![], at_event: true, over_layers: false, out_of_scope: false });
                     }
                 }
                 _ => {}
@@ -552,8 +627,8 @@ fn report(out: &mut CaseOut, cfg: &Cfg, text: &str, h: &[Ev], part: &str, reused
         let (sig, what) = match (&f.mismatch, &f.unclean) {
             (Some(m), _) if m.at_event => ("C04:output-at-event".to_string(), format!("output [{}] while an input event was handled", fmt_tick(&m.kanata))),
             (Some(m), _) if m.over_layers => (
-                "C04:12-or-more-held-layers".to_string(),
-                format!("tick {}: with 12 or more layers held kanata wrote [{}], the layered-keymap model expects [{}]", m.tick, fmt_tick(&m.kanata), fmt_tick(&m.model)),
+                "C04:more-than-10-held-layers:oldest-not-searched".to_string(),
+                format!("tick {}: more than 10 layers held and the action is found on a held layer older than the 10 most recent: kanata went on to the base layer and wrote [{}], the search over all held layers gives [{}]{}", m.tick, fmt_tick(&m.kanata), fmt_tick(&m.model), if m.kanata == m.model { " (same output in this tick, different held layers / keys afterwards)" } else { "" }),
             ),
             (Some(m), _) => (
                 format!("C04:{}", classify(&m.kanata, &m.model)),
@@ -631,6 +706,15 @@ pub fn fixed_cfgs() -> Vec<Cfg> {
     c7.block = true;
     c7.explicit = true;
     v.push(c7);
+    // 8: regression for the repaired 12-layer defect: a and c each hold six copies of l1 (12 held layers),
+    //    b is transparent there and must still reach the base layer
+    let six = |first: usize| mu(vec![Lwh(first), Lwh(1), Lwh(1), Lwh(1), Lwh(1), Lwh(1)]);
+    v.push(base(vec![vec![six(1), k("x"), six(1)], vec![Trans, Trans, Trans]], true, false));
+    // 9: the remaining capacity limit: a holds l2 and then five copies of l1, c six copies of l1; with a
+    //    pressed first l2 is the 12th most recent held layer, and b (y on l2, transparent on l1, x on the
+    //    base layer) is then resolved without looking at l2 (known finding); with c pressed first l2 is
+    //    within the 10 most recent and is found
+    v.push(base(vec![vec![six(2), k("x"), six(1)], vec![Trans, Trans, Trans], vec![Trans, k("y"), Trans]], true, false));
     v
 }
 
@@ -800,6 +884,7 @@ fn n_random(tier: Tier) -> u64 {
 fn add_stats(out: &mut CaseOut, l: &Lock) {
     let s = &l.model.stats;
     out.count("presses", s.presses);
+    out.count("presses_with_more_than_10_held_layers", s.presses_over_cap);
     out.count("press_resolved_below_top_layer", s.resolved_below_top);
     out.count("release_on_changed_layer_stack", s.release_on_changed_stack);
     out.count("chord_keys_cleared_by_next_action", s.chord_cleared);
@@ -834,6 +919,7 @@ impl C04Check {
         };
         let codes: Vec<u16> = ["a", "b", "c"].iter().map(|s| kc(s)).collect();
         let mut reported = 0;
+        let mut deviations: Vec<(Vec<Ev>, Option<Mismatch>, Option<String>)> = vec![];
         // every length 2..=n (length-1 histories are prefixes of these up to the final release)
         for len in 2..=n {
             let mut pending: Vec<(Vec<Ev>, Option<Mismatch>, Option<String>)> = vec![];
@@ -854,7 +940,19 @@ impl C04Check {
                     out.tag(format!("E{ci}:{ks}:{}", (lock.model.stats.release_on_changed_stack > before) as u8));
                 }
                 if mm.is_some() || unclean.is_some() {
-                    pending.push((h, mm, unclean));
+                    let scope_cut = mm.as_ref().map(|m| m.out_of_scope).unwrap_or(false);
+                    let known_class = mm.as_ref().map(|m| m.over_layers).unwrap_or(false);
+                    if scope_cut {
+                        out.inc("histories_cut_by_layer_guard");
+                    } else if known_class {
+                        // the enumeration goes on; the first one of a case is written out
+                        out.inc("oldest_held_layer_not_searched");
+                        if deviations.len() < 2 {
+                            deviations.push((h, mm, unclean));
+                        }
+                    } else {
+                        pending.push((h, mm, unclean));
+                    }
                     // the instance may be in any state now: start over
                     add_stats(out, &lock);
                     match Lock::new(cfg, &text) {
@@ -875,6 +973,9 @@ impl C04Check {
             if reported >= 3 {
                 break;
             }
+        }
+        for (h, mm, un) in deviations.iter().take(1) {
+            report(out, cfg, &text, h, "exhaustive", mm.as_ref(), un.as_deref());
         }
         add_stats(out, &lock);
         out.inc("configs");
@@ -920,11 +1021,10 @@ impl C04Check {
             }
             let mm = lock.run(h);
             if mm.as_ref().map(|m| m.out_of_scope).unwrap_or(false) {
-                // 12 or more layers held: compared up to and including the first press resolved in
-                // that state, the rest of the history is not judged
+                // more than 16 layers held / exponential work: the rest of the history is not judged
                 out.inc("histories");
                 out.inc("histories_random");
-                out.inc("histories_cut_at_12_held_layers");
+                out.inc("histories_cut_by_layer_guard");
                 add_stats(out, &lock);
                 match Lock::new(&cfg, &text) {
                     Ok(l) => lock = l,
@@ -937,6 +1037,9 @@ impl C04Check {
             out.inc("histories_random");
             out.count("events", h.iter().filter(|e| !matches!(e, Ev::T(_))).count() as u64);
             if mm.is_some() || unclean.is_some() {
+                if mm.as_ref().map(|m| m.over_layers).unwrap_or(false) {
+                    out.inc("oldest_held_layer_not_searched");
+                }
                 if reported < 2 {
                     reported += 1;
                     report(out, &cfg, &text, h, "random", mm.as_ref(), unclean.as_deref());
@@ -986,7 +1089,7 @@ impl Check for C04Check {
     }
     fn rule(&self) -> String {
         format!(
-            "Part 1 (exhaustive, seed-independent): 8 fixed configurations over the physical keys a b c (held layers with transparent fall-through, stacked layers, to-base-layer + delegate-to-first-layer, layer-switch, release-key/-layer, multi with nested `_`, output chords, use-defsrc, XX, the same key code from two keys, an unmapped key with block-unmapped-keys) x EVERY physically consistent history of 2..=N events (N = {} quick / {} thorough) with every inter-event gap in {{0,1,2}} ticks, every key still down released at the end. Part 2 (random): generated configurations of the fragment (1-4 layers, 2-6 defsrc keys in shuffled order, deflayer or deflayermap, both transparent-key-resolution settings, delegate-to-first-layer on/off, process-/block-unmapped-keys on/off, one key outside defsrc) x 6 histories of 20-60 events (gaps 0-5 ticks; every third history is a zero-gap burst that keeps up to 29 events pending). Every tick of every history, kanata's key presses/releases (redundant releases dropped) are compared, in order, with the layered-keymap reference model; after each history the OS model, the layout's state list and its queue must be empty. One kanata instance runs all histories of a case; a disagreement is re-judged on a fresh instance and minimised. distinct_nontrivial = (fixed config, key sequence, whether a release happened under a changed layer stack) for part 1, configuration shape for part 2.",
+            "Part 1 (exhaustive, seed-independent): 10 fixed configurations over the physical keys a b c (held layers with transparent fall-through, stacked layers, to-base-layer + delegate-to-first-layer, layer-switch, release-key/-layer, multi with nested `_`, output chords, use-defsrc, XX, the same key code from two keys, an unmapped key with block-unmapped-keys, 12 held copies of one layer with a transparent key that must reach the base layer, 12 held layers of which the oldest is the only one that maps the key) x EVERY physically consistent history of 2..=N events (N = {} quick / {} thorough) with every inter-event gap in {{0,1,2}} ticks, every key still down released at the end. Part 2 (random): generated configurations of the fragment (1-4 layers, 2-6 defsrc keys in shuffled order, deflayer or deflayermap, both transparent-key-resolution settings, delegate-to-first-layer on/off, process-/block-unmapped-keys on/off, one key outside defsrc) x 6 histories of 20-60 events (gaps 0-5 ticks; every third history is a zero-gap burst that keeps up to 29 events pending). Every tick of every history, kanata's key presses/releases (redundant releases dropped) are compared, in order, with the layered-keymap reference model; after each history the OS model, the layout's state list and its queue must be empty. One kanata instance runs all histories of a case; a disagreement is re-judged on a fresh instance and minimised. distinct_nontrivial = (fixed config, key sequence, whether a release happened under a changed layer stack) for part 1, configuration shape for part 2.",
             exh_n(Tier::Quick),
             exh_n(Tier::Thorough)
         )
@@ -994,7 +1097,8 @@ impl Check for C04Check {
     fn assumptions(&self) -> Vec<String> {
         vec![
             "fewer than 32 events pending (the generators keep at most 29 in the queue)".into(),
-            "kanata's resolution stack holds 12 layers: a history is judged up to and including the first press that is resolved with 12 or more layers held (a disagreement there has the signature C04:12-or-more-held-layers, see findings) and is cut after it".into(),
+            "kanata's 12-entry resolution stack searches the 10 most recent held layers, then the base layer (and the first layer with delegate-to-first-layer). The model runs that search and, when more than 10 layers are held, also the statement's search over all held layers: if kanata agrees with the capped search and the two differ (the action is on a held layer older than the 10 most recent) that is the known finding C04:more-than-10-held-layers:oldest-not-searched; if kanata agrees with the full search the model follows it; anything else is an ordinary violation".into(),
+            "a history is cut (not judged further) once more than 16 layers are held, the model needs more than 2,000,000 action steps for one press, or more than 56 states are active: nested `_` inside multi on a layer held n times multiplies the work by 2^n and kanata's state list holds 64 entries".into(),
             "the order of several outputs within one tick is compared as 'releases in the order of the previous key list, then presses in state order' (appendix A convention)".into(),
             "delegate-to-first-layer is modelled as acting through the layer search order only (first layer searched after the base layer); use-defsrc and the final fallback are always the plain defsrc key".into(),
             "deflayermap is not combined with block-unmapped-keys (the guide does not say what a defsrc key that a deflayermap does not list becomes then); keys outside defsrc are only pressed with process-unmapped-keys yes".into(),
@@ -1014,6 +1118,7 @@ impl Check for C04Check {
             ("nested_transparent_resolutions", 10_000),
             ("first_layer_delegations", 100),
             ("layer_switches", 1_000),
+            ("presses_with_more_than_10_held_layers", 10_000),
             ("max_pending_events", 25),
             ("max_held_layers", 3),
         ]
